@@ -32,7 +32,7 @@ T1 = datetime.datetime(2012, 3, 4, 5, 6, 7)
 T2 = datetime.datetime(2013, 1, 1, 0, 0, 0, 250000)
 
 REF_REPRS = ["qname", "string", "uri", "record", "identifier"]
-TIME_REPRS = ["datetime", "iso"]
+TIME_REPRS = ["datetime", "iso", "literal"]
 
 
 def ref_value(doc, local, how, other_ns=False):
@@ -53,6 +53,9 @@ def ref_value(doc, local, how, other_ns=False):
 
 
 def time_value(t, how):
+    if how == "literal":
+        # the typed-literal spelling (what <prov:time xsi:type="xsd:dateTime"> loads as)
+        return Literal(t.isoformat(), XSD["dateTime"])
     return t if how == "datetime" else t.isoformat()
 
 
@@ -167,7 +170,8 @@ def followups(kind):
                 for rep in TIME_REPRS:
                     if choice == "unparsable" and rep == "datetime":
                         continue
-                    for path in ("attrs-dict", "attrs-list") + (("set_time",) if kind == "activity" else ()):
+                    # (set_time documents its arguments as datetime or string: no typed literal there)
+                    for path in ("attrs-dict", "attrs-list") + (("set_time",) if kind == "activity" and rep != "literal" else ()):
                         out.append((i, fa, choice, rep, path))
                     if choice != "unparsable":
                         out.append((i, fa, choice, rep, "one-call-two-values:dict-then-list"))
@@ -219,7 +223,8 @@ def apply_followup(doc, rec, model, fu):
             t = T2
         else:
             t = None
-        val = "not a date" if t is None else time_value(t, rep)
+        val = time_value(t, rep) if t is not None else (
+            Literal("not a date", XSD["dateTime"]) if rep == "literal" else "not a date")
         vo = None if t is None else observe.vobs(t)
     else:
         local = "v%d" % i if choice == "same" else "w%d" % i
@@ -507,7 +512,7 @@ def record_items(tier):
         for path in ("factory", "new_record-dict", "new_record-list", "new_record-strkeys"):
             for rrep in REF_REPRS:
                 for trep in TIME_REPRS:
-                    if trep == "iso" and not any(f in TIME_ATTRS for f in formals):
+                    if trep != "datetime" and not any(f in TIME_ATTRS for f in formals):
                         continue
                     if rrep != "qname" and not any(f not in TIME_ATTRS for f in formals):
                         continue
@@ -516,7 +521,7 @@ def record_items(tier):
         if kind in CONVENIENCE:
             for rrep in REF_REPRS:
                 for trep in TIME_REPRS:
-                    if trep == "iso" and not any(f in TIME_ATTRS for f in formals):
+                    if trep != "datetime" and not any(f in TIME_ATTRS for f in formals):
                         continue
                     for mask in masks:
                         if mask[0]:
